@@ -163,6 +163,13 @@ func checkC05(c *Ctx) {
 					return mon, false
 				}
 				if !res.Accepted {
+					// M5 (second half): ... nor silently dropped - no error, and nothing changed
+					if (ev.Variant == "valid" || ev.Variant == "hostile-text") && ev.Known && mon.Inited && !mon.Cancelled && mon.Phase < 5 {
+						want := map[string]int{"decline": 0, "commiterr": 1, "dealerr": 2, "responseerr": 3, "masterkeyerr": 4}
+						if ph, ok := want[ev.Kind]; ok && ph == mon.Phase && mon.Got[ph]&(1<<uint(ev.P)) == 0 && !(mon.KeyGood && mon.KeyBad) && !isCancelled(res.Before) {
+							c.Violate("C05/M5-failure-report-ignored:"+ev.Kind, fmt.Sprintf("%s by awaited participant %d in %s: no error, but the round is unchanged (still %s): the failure is forgotten", ev.Label, ev.P, res.Before, res.After), wit())
+						}
+					}
 					return mon, false
 				}
 				nm := mon
